@@ -132,7 +132,8 @@ def templates(r):
 
 
 CONFIGS = [("top", {}, {}), ("module", {}, {"as_module": True}), ("top-nojit", {"STEEL_JIT": "false"}, {}),
-           ("top-gc-every-1", {}, {"gc_every": 1}), ("top-gc-every-3-nojit", {"STEEL_JIT": "false"}, {"gc_every": 3})]
+           ("top-gc-every-1", {}, {"gc_every": 1, "no_vals": True}),
+           ("top-gc-every-3-nojit", {"STEEL_JIT": "false"}, {"gc_every": 3, "no_vals": True})]
 
 
 def main(tier):
